@@ -1033,7 +1033,9 @@ class Interp:
             kw = tuple(sorted((k, self.B.freeze_term(self, v, st)) for k, v in kwargs.items()))
             return [(Term("call", (fv,) + tuple(self.B.freeze_term(self, a, st) for a in args) + ((("kw",) + kw,) if kw else ())), st)]
         if isinstance(fv, Opaque) and fv.cls in self.B.EXT_CALLS:
-            return self.B.EXT_CALLS[fv.cls](self, args, kwargs, st, node)
+            r = self.B.EXT_CALLS[fv.cls](self, args, kwargs, st, node)
+            if r is not None:
+                return r
         if isinstance(fv, Opaque):
             hook = self.probes.get("call:" + fv.cls) or self.probes.get("call:*")
             if hook:
